@@ -19,7 +19,7 @@ from __future__ import annotations
 import ast
 from typing import Optional
 
-from ..core import AnalysisError, ClassInfo, FuncInfo, ModuleInfo, call_name, norm, short, walk_local
+from ..core import AnalysisError, ClassInfo, FuncInfo, ModuleInfo, call_name, norm, self_attr, short, walk_local
 from ..engine import Engine
 from ..report import Check
 
@@ -252,6 +252,64 @@ def run(chk: Check, eng: Engine) -> None:
                 b["readers"].setdefault(f.fq, f.line)
                 b["uses"] = sorted({u for u, _ in uses})
                 b["stored_attrs"] = sorted(stored_attrs)
+    # (iii-b) defaults that are *objects* of a repository class (`mutation_method=SimpleMutation()`): one object serves every instance
+    n_obj_defaults = 0
+    for f in ix.all_functions:
+        a = f.node.args  # type: ignore[attr-defined]
+        allp = a.posonlyargs + a.args
+        for p, d in list(zip(allp[len(allp) - len(a.defaults):], a.defaults)) + [(p, d) for p, d in zip(a.kwonlyargs, a.kw_defaults) if d is not None]:
+            if not (isinstance(d, ast.Call) and isinstance(d.func, (ast.Name, ast.Attribute))):
+                continue
+            dcls = ix.resolve_class_expr(ix.modules[f.module], d.func)
+            if dcls is None:
+                continue
+            n_obj_defaults += 1
+            fam = [dcls] + dcls.all_subclasses()
+            stored = {t.attr for n in walk_local(f.node) if isinstance(n, ast.Assign) and isinstance(n.value, ast.Name) and n.value.id == p.arg for t in n.targets if isinstance(t, ast.Attribute)}
+            writers: dict[str, int] = {}
+            fields: set[str] = set()
+            # the object's own methods keep state
+            for k in fam + dcls.mro():
+                for m in k.methods.values():
+                    if m.name in ("__init__", "__post_init__"):
+                        continue
+                    for n in walk_local(m.node):
+                        tg = []
+                        if isinstance(n, (ast.Assign, ast.AugAssign, ast.AnnAssign)):
+                            tg = n.targets if isinstance(n, ast.Assign) else [n.target]
+                        for t in tg:
+                            b0 = t.value if isinstance(t, ast.Subscript) else t
+                            if self_attr(b0):
+                                writers.setdefault(m.fq, n.lineno)
+                                fields.add(self_attr(b0))  # type: ignore[arg-type]
+                        if isinstance(n, ast.Call) and isinstance(n.func, ast.Attribute) and n.func.attr in MUT and self_attr(n.func.value):
+                            writers.setdefault(m.fq, n.lineno)
+                            fields.add(self_attr(n.func.value))  # type: ignore[arg-type]
+            # somebody else writes a field of the stored object: x.<stored>.<field> = ... / <param>.<field> = ...
+            for g in ix.all_functions:
+                for n in walk_local(g.node):
+                    tg = []
+                    if isinstance(n, (ast.Assign, ast.AugAssign, ast.AnnAssign)):
+                        tg = n.targets if isinstance(n, ast.Assign) else [n.target]
+                    for t in tg:
+                        b0 = t.value if isinstance(t, ast.Subscript) else t
+                        if isinstance(b0, ast.Attribute) and ((isinstance(b0.value, ast.Attribute) and b0.value.attr in stored) or
+                                                              (g is f and isinstance(b0.value, ast.Name) and b0.value.id == p.arg)):
+                            writers.setdefault(g.fq, n.lineno)
+                            fields.add(b0.attr)
+            bid = f"{f.fq}({p.arg}={short(d, 30)})"
+            if writers:
+                b = B(bid, "default object")
+                for wq, ln in writers.items():
+                    b["writers"].setdefault(wq, ln)
+                b["readers"].setdefault(f.fq, f.line)
+                for k in fam:
+                    for m in k.methods.values():
+                        if any(isinstance(n, ast.Attribute) and isinstance(n.ctx, ast.Load) and self_attr(n) in fields for n in walk_local(m.node)):
+                            b["readers"].setdefault(m.fq, m.line)
+                b["fields"] = sorted(fields)
+            else:
+                chk.ok("R18-a", bid, 0, f"default object `{short(d, 30)}` is shared by every instance but stateless: no field of {dcls.name} is written outside __init__", nontrivial=False)
     # aliased instance attributes: every load is a read
     for f in ix.all_functions:
         if f.cls is None:
@@ -415,6 +473,8 @@ _G = "src/fandango/language/grammar/grammar.py"
 _P = "src/fandango/language/grammar/parser/parser.py"
 _CMP = "src/fandango/constraints/comparison.py"
 MUTANTS = [
+    M("shared-default-operator-gets-state", "src/fandango/evolution/algorithm.py", "        self.mutation_method = mutation_method\n",
+      "        self.mutation_method = mutation_method\n        self.mutation_method.max_nodes = min(getattr(self.mutation_method, \"max_nodes\", 50), max_nodes)\n", "R18-a"),
     M("module-level-solution-set", _EV, "        self._solution_set: set[int] = set()\n", "        self._solution_set: set[int] = _SEEN_SOLUTIONS\n", "R18-a",
       more=(("class Evaluator:\n    def __init__(", "_SEEN_SOLUTIONS: set[int] = set()\n\n\nclass Evaluator:\n    def __init__("),)),
     M("class-level-parse-cache", _P, "class Parser:\n    def __init__(self, grammar_rules: dict[NonTerminal, Node]):\n        self._iter_parser = IterativeParser(grammar_rules)\n",
